@@ -97,6 +97,8 @@ DoCall == LET cl == Cardinality(g.called) + 1 IN
 DoCancel == /\ (~Record \/ CancelOn)
             /\ Cardinality(g.cancelled) < MaxCancel
             /\ cnt.found <= MaxRepliesC
+            \* (repeated / foreign-key / late events are explored in the behaviours without a cancellation)
+            /\ (~Record => cnt.dup = 0 /\ cnt.foreign = 0 /\ cnt.late = 0)
             /\ \E cl \in g.called \ (g.got \cup g.cancelled) : Step([Base("Cancel") EXCEPT !.caller = cl], cnt)
 
 \* peers are interchangeable: a peer that has not answered yet is the lowest unused id
@@ -112,6 +114,7 @@ DoFound == /\ cnt.found < (IF Cardinality(g.called) > 1 THEN MaxReplies2 ELSE Ma
                 LET fk == IF k = st.qs[q].key THEN 0 ELSE 1
                     dp == IF [p |-> p, c |-> c, k |-> k] \in g.replies[q] THEN 1 ELSE 0 IN
                 /\ LateOk(q)
+                /\ (~Record /\ g.cancelled # {} => fk = 0 /\ dp = 0 /\ IsLive(st, q))
                 /\ cnt.foreign + fk <= MaxForeign
                 /\ cnt.dup + dp <= MaxDup
                 /\ Step([Base("Found") EXCEPT !.q = q, !.p = p, !.c = c, !.k = k],
@@ -119,6 +122,7 @@ DoFound == /\ cnt.found < (IF Cardinality(g.called) > 1 THEN MaxReplies2 ELSE Ma
                          late |-> cnt.late + LateInc(q)])
 Term(ev) == \E q \in 1..Len(st.qs) :
                 /\ LateOk(q)
+                /\ (~Record /\ g.cancelled # {} => IsLive(st, q))
                 /\ Step([Base(ev) EXCEPT !.q = q], [cnt EXCEPT !.late = @ + LateInc(q)])
 DoFinished == Term("Finished")
 DoNotFound == Term("NotFound")
